@@ -244,7 +244,12 @@ def main(argv=None):
         if a.replay:
             with open(a.replay) as f:
                 doc = json.load(f)
-            mod.replay(ctx, doc)
+            if doc.get("program") is None and doc.get("trace") is not None:
+                # recorded from a source without a driver program (the repository's own tests under the tracer): re-judge it
+                ctx.validate_traces(doc["trace_module"], doc["trace_cfg"], [doc["trace"]], None,
+                                    source="replay of the recorded trace", expect_clean=False)
+            else:
+                mod.replay(ctx, doc)
         else:
             mod.run(ctx)
             ctx.write_evidence(getattr(mod, "LEVEL", "model_checking"))
